@@ -40,7 +40,7 @@ def case_order(rep, drv, rnd, i, tier):
         rep.violation(dict(payload, kind='RecursionError'))
         return
     try:
-        model = drv.ask(unif.model_cmd(binds, watch, ('stop', 1)))
+        model = unif._fix_py_entries(drv.ask(unif.model_cmd(binds, watch, ('stop', 1))))
     except common.ModelTimeout:
         return
     want = [Sym('ans'), ground, ground, [Sym('f'), 'w', ground, ground]]
